@@ -150,6 +150,7 @@ func (e *Engine) doRecv(st *State, f *Frame, x *ssa.UnOp, ch *ChanVal) int {
 		v := c.buf[0]
 		nc.buf = append([]Value(nil), c.buf[1:]...)
 		e.setChan(st, ch, &nc)
+		e.parProgress(st) // a sender waiting for space can go on
 		return set(v, true)
 	}
 	if c.closed {
@@ -174,6 +175,7 @@ func (e *Engine) doSend(st *State, f *Frame, x *ssa.Send) int {
 		nc := *c
 		nc.buf = append(append([]Value(nil), c.buf...), e.eval(st, f, x.X))
 		e.setChan(st, ch, &nc)
+		e.parProgress(st) // a receiver waiting on this channel can go on
 		f.ip++
 		return stCont
 	}
@@ -298,6 +300,7 @@ func (e *Engine) doSelect(st *State, f *Frame, x *ssa.Select) int {
 			v := c.buf[0]
 			nc.buf = append([]Value(nil), c.buf[1:]...)
 			e.setChan(st, ch, &nc)
+			e.parProgress(st)
 			return mk(r.i, r.i, v, true)
 		}
 		return mk(r.i, r.i, nil, false)
